@@ -224,11 +224,6 @@ func (fr *frame) trySpeculate(instr *ssa.If, cond sym) (didMerge bool, returned 
 	savedBlock, savedPrev := fr.block, fr.prevBlock
 	nTrail, nInputs, nDraws, nVars := len(ex.trail), len(ex.inputs), len(ex.draws), ex.varCount
 
-	// a side that the path condition (and enclosing guards) excludes is not speculated
-	g := ex.guardTerm()
-	if !ex.feasible(c.And(g, cond.t)) || !ex.feasible(c.And(g, c.Not(cond.t))) {
-		return false, false
-	}
 
 	runSide := func(k int) (res sideResult, ok bool) {
 		log := &specLog{seen: map[*value]bool{}}
@@ -367,9 +362,14 @@ func (fr *frame) trySpeculate(instr *ssa.If, cond sym) (didMerge bool, returned 
 		return false, false
 	}
 
+	// A side that cannot be merged is often one the path condition (with the
+	// enclosing guards) excludes, e.g. the panicking default of a switch: then
+	// the If is decided, not forked. The feasibility queries are only paid
+	// when a side fails.
 	rt, ok := runSide(0)
 	if !ok {
-		return fail()
+		fail()
+		return false, false // branch() decides: forced if a side is infeasible
 	}
 	rf, ok := runSide(1)
 	if !ok {
